@@ -132,8 +132,8 @@ def functions_of(tree):
 
 def build_reference(modules):
     """modules: {module name: ast tree} -> reference table"""
-    from .canon import build_function_reference
-    ref = {'__functions__': build_function_reference(modules)}
+    from .canon import build_function_reference, build_module_names_reference
+    ref = {'__functions__': build_function_reference(modules), '__module_names__': build_module_names_reference(modules)}
     for mname, tree in modules.items():
         for q, f in functions_of(tree):
             fps = fingerprints(f)
